@@ -16,6 +16,8 @@ POST = {
     1: {"type": "embed", "prefix": "[", "suffix": "]"},
     2: {"type": "embed", "prefix": "<", "suffix": ">"},
     3: {"type": "embed", "prefix": "{", "suffix": "}"},
+    # reads the context of the pipeline it runs in: a variable and the state
+    4: {"type": "simple_template", "template": "{query} |k1={pipeline.vars[k1]} st={pipeline.state}"},
 }
 FIN = {1: {"type": "concat", "separator": " , ", "prefix": "A(", "suffix": ")"}}
 PROBES = [
@@ -81,8 +83,10 @@ def _apply_state(pipeline):
     from sigma.rule import SigmaRule
 
     try:
-        pipeline.apply(SigmaRule.from_dict(copy.deepcopy(PROBES[1])))
-        return [f"{k}={v}" for k, v in sorted(pipeline.state.items())]
+        rule = SigmaRule.from_dict(copy.deepcopy(PROBES[1]))
+        pipeline.apply(rule)
+        # ... and what its post-processing items make of a query text, in the context they run in
+        return [f"{k}={v}" for k, v in sorted(pipeline.state.items())] + ["post=" + str(pipeline.postprocess_query(rule, "Q"))]
     except Exception as e:  # noqa: BLE001
         return ["exception:" + type(e).__name__]
 
@@ -131,6 +135,10 @@ def drive_case(case):
             composed = pipes[0] + pipes[1]
             _second = pipes[0] + pipes[1]
             b = Plain(composed)
+        elif op == "reuse_then_third":  # a + b is built, THEN b goes into another sum, then a + b is used
+            composed = pipes[0] + pipes[1]
+            _other = pipes[1] + pipes[2]
+            b = Plain(composed)
         elif op == "reuse_operand":
             _sum = pipes[0] + pipes[1]
             composed = pipes[0]
@@ -169,8 +177,9 @@ def drive_case(case):
         compose_error = {"ok": False, "out": [], "exc": type(e).__name__, "sigma": isinstance(e, SigmaError)}
         composed = None
     via_rule = op == "backend_switch"
-    got = compose_error or _convert(b, fmt, via_rule)
+    # the composed object used directly, before a backend sums its parts once more
     state_after = _apply_state(composed) if composed is not None else []
+    got = compose_error or _convert(b, fmt, via_rule)
     vars_ = sorted((int(k[1:]), v) for k, v in (composed.vars.items() if composed is not None else []) if k.startswith("k") and k[1:].isdigit())
     last = getattr(b, "last_processing_pipeline", None)
     applied = list(last.applied) if last is not None else []
